@@ -33,7 +33,7 @@
 //    callback must wait for an instant strictly after the one being delivered.  Arming for an instant whose callback already
 //    ran (and that no backward step / cleanup() re-exposed) is reported at the arming, not only when the second callback comes.
 //  * cron: day-of-month and day-of-week both restricted = both must hold (what the bundled ccronexpr implements).  Expressions
-//    the bundled ccronexpr answers wrongly on the unchanged tree are kept behind C20_CRON_KNOWN_DEFECTS=1 (see cron_cases()).
+//    that exposed the three ccronexpr defects (see cron_cases()) are evaluated by default; C20_CRON_KNOWN_DEFECTS=0 leaves them out.
 #include "hist/hist.h"
 #include <tbox/event/loop.h>
 #include <tbox/event/timer_event.h>
@@ -471,15 +471,15 @@ static int sweep_workday(int part, int nparts, bool thorough) {
 }
 
 struct CronCase { std::string expr; RefCfg ref; const char *known_defect = nullptr; };
-// Expressions on which the bundled ccronexpr (modules/alarm/3rd-party/ccronexpr.cpp) really returns a wrong instant on the unchanged tree
-// (reported as defect candidates, see the check's final report / DESIGN notes).  They stay in the case table but are only evaluated when
-// C20_CRON_KNOWN_DEFECTS=1 is set, so that the tree stays quiet by default:
-//   seconds-kept : a lower field that was moved forward is not reset when a higher field rolls ('0,30 0 * * * *' at 10:10:10 -> 11:00:30, not 11:00:00)
-//   same-day-no  : find_next_day() landing on the same day NUMBER in a later month is taken for 'day unchanged', the hour/minute/second reset to 0 stays
+// Expressions the bundled ccronexpr (modules/alarm/3rd-party/ccronexpr.cpp) answered wrongly when they were added (three defects in
+// do_next()/find_next(); repair in /verif/build/c20_cron_fix.diff).  They are evaluated by default; C20_CRON_KNOWN_DEFECTS=0 leaves them out
+// (e.g. to look at the rest of the check on a tree that does not have the repair yet):
+//   seconds-kept : a lower field that was moved forward was not reset when a higher field rolled ('0,30 0 * * * *' at 10:10:10 -> 11:00:30, not 11:00:00)
+//   same-day-no  : find_next_day() landing on the same day NUMBER in a later month was taken for 'day unchanged', the hour/minute/second reset to 0 stayed
 //                  ('0 0 12 13 * FRI' at 2020-01-12 23:59:56 -> 2020-03-13 00:00:00, which does not even match hour 12)
-//   month-overflow: the month is set before the day is reset, so day 29..31 overflows into the following month and the target month is skipped
-//                  ('30 15 10 29-31 2,4 *' at 2023-12-29 10:15:31 -> 2024-04-29, skipping 2024-02-29)
-static bool cron_known_defects_enabled() { const char *e = getenv("C20_CRON_KNOWN_DEFECTS"); return e && *e == '1'; }
+//   month-overflow: the month was set before the day was reset, so day 29..31 overflowed into the following month and the target month was skipped
+//                  ('0 0 0 * 2 *' at 2023-12-29 00:00:01 -> 2025-02-01, a year late; '30 15 10 29-31 2,4 *' at 2023-12-29 10:15:31 -> 2024-04-29, skipping 2024-02-29)
+static bool cron_known_defects_enabled() { const char *e = getenv("C20_CRON_KNOWN_DEFECTS"); return !(e && *e == '0'); }
 static void cron_cases(std::vector<CronCase> &out) {
   auto tod = [](int s, int m, int h) { return h * 3600 + m * 60 + s; };
   for (int s : {0, 59}) for (int m : {0, 59}) for (int h : {0, 23}) { CronCase c; c.expr = fmt("%d %d %d * * *", s, m, h); c.ref.kind = RefCfg::CRON_DAILY; c.ref.sod = tod(s, m, h); c.ref.horizon_days = 3; out.push_back(c); }
@@ -506,6 +506,7 @@ static void cron_cases(std::vector<CronCase> &out) {
   sets("0 0 0 1-7 * MON", 1, 1, 1, (uint32_t)B({1, 2, 3, 4, 5, 6, 7}), 0, (uint32_t)B({1}), 80);
   sets("0 0 0 * JAN,JUL MON-FRI", 1, 1, 1, 0, (uint32_t)B({1, 7}), (uint32_t)B({1, 2, 3, 4, 5}), 2 * 366);
   sets("30 15 10 29-31 2,4 *", B({30}), B({15}), (uint32_t)B({10}), (uint32_t)B({29, 30, 31}), (uint32_t)B({2, 4}), 0, 2 * 366, "month-overflow");
+  sets("0 0 0 * 2 *", 1, 1, 1, 0, (uint32_t)B({2}), 0, 2 * 366, "month-overflow");
   sets("30 15 10 1-28 2,4 *", B({30}), B({15}), (uint32_t)B({10}), 0x1ffffffeu, (uint32_t)B({2, 4}), 0, 2 * 366);
   sets("0 0 0 * * 6-7", 1, 1, 1, 0, 0, (uint32_t)B({6, 0}), 9);
   sets("59 59 23 ? 3-12/3 SUN,WED", B({59}), B({59}), (uint32_t)B({23}), 0, (uint32_t)B({3, 6, 9, 12}), (uint32_t)B({0, 3}), 2 * 366, "month-overflow");
@@ -523,7 +524,7 @@ static int sweep_cron(int part, int nparts, bool thorough) {
     for (size_t ci = 0; ci < cases.size(); ci++) {
       if ((int)(ci % nparts) != part) continue;
       CronCase &c = cases[ci];
-      if (c.known_defect && !cron_known_defects_enabled()) { printf("@INFO cron: expr='%s' not evaluated (known ccronexpr defect '%s' on the unchanged tree; C20_CRON_KNOWN_DEFECTS=1 evaluates it)\n", c.expr.c_str(), c.known_defect); continue; }
+      if (c.known_defect && !cron_known_defects_enabled()) { printf("@INFO cron: expr='%s' not evaluated (C20_CRON_KNOWN_DEFECTS=0; it exposed the ccronexpr defect '%s')\n", c.expr.c_str(), c.known_defect); continue; }
       CronProbe a(loop); a.setCallback([] {});
       if (!a.initialize(c.expr)) { sw.viol("cron-initialize-rejected", c.expr); continue; }
       // `now` values: windows of days (dense boundary seconds inside each day) + one probe per day over several years for the yearly shape
@@ -865,7 +866,7 @@ int main(int argc, char **argv) {
   if (mode == "sweep-oneshot") return sweep_oneshot(part, nparts, thorough);
   if (mode == "sweep-workday") return sweep_workday(part, nparts, thorough);
   if (mode == "sweep-cron") return sweep_cron(part, nparts, thorough);
-  if (mode == "count-cron-sets") { std::vector<CronCase> cs; cron_cases(cs); int on = 0, off = 0; for (auto &c : cs) if (c.ref.kind == RefCfg::CRON_SETS) (c.known_defect ? off : on)++; printf("%d %d\n", on, off); return 0; }
+  if (mode == "count-cron-sets") { std::vector<CronCase> cs; cron_cases(cs); int on = 0, off = 0; for (auto &c : cs) if (c.ref.kind == RefCfg::CRON_SETS) ((c.known_defect && !cron_known_defects_enabled()) ? off : on)++; printf("%d %d\n", on, off); return 0; }
 #endif
   printf("@VIOL sig=harness-bad-arguments :: %s\n", mode.c_str());
   return 0;
